@@ -2,29 +2,69 @@
   C13  The circular buffer is a loss-free FIFO with exact drop accounting.
   PROPERTY THEOREMS ONLY (helper lemmas live in PdshVerif/Cbuf/*.lean).
 
-  Model:  PdshVerif/Cbuf/Model.lean  (index-level mirror of src/pdsh/cbuf.c)
-  Spec:   PdshVerif/Cbuf/Spec.lean   (a plain FIFO `q : List UInt8` with a capacity)
+  Model:  PdshVerif/Cbuf/Model.lean, ModelLine.lean  (index-level mirror of src/pdsh/cbuf.c, the
+          WHOLE public header; the growth policy of `cbuf_grow` is a PARAMETER, `Policy`)
+  Spec:   PdshVerif/Cbuf/Spec.lean (a plain FIFO `q : List UInt8` with a capacity),
+          SpecReplay.lean (+ the history of consumed bytes still held, + the flag "something was
+          lost"), SpecLine.lean (line-level replay on that history)
 
-  What is proved (for ALL buffers, sizes, modes, contents and operation histories):
-  * every history over write / write-from-descriptor / write_line / read / peek / drop /
-    read_line / peek_line / drop_line / flush / opt_set, started from `cbuf_create`, is accepted step by
-    step by the FIFO specification with identical answers, and the abstraction (the unread
-    bytes) commutes with every step                              (`history_refines_fifo`);
-  * the invariant checked by `cbuf_is_valid` holds in every reachable state
-    (`reachable_valid`), hence `min ≤ size ≤ max` and `used ≤ size` (`size_bounds`);
-  * facts about the specification that say what "FIFO with exact drop accounting" means:
-    conservation of bytes, suffix property, no-drop mode loses nothing, all-or-nothing lines.
-  * beyond the property's own operation list, the rest of the public API of cbuf.c: replay / rewind
-    (a history of consumed bytes next to the FIFO), peek_to_fd / read_to_fd / replay_to_fd on a
-    descriptor that takes only some bytes, and copy / move between two buffers — every history over
-    all of these on one buffer (`history_refines_replay_fifo`) and on a pair of buffers
-    (`pair_history_refines_fifo`) is accepted by the specification with identical answers;
-  * the counters agree with the contents in every reachable state (`counters_agree`).
-  NOT modelled: replay_line / rewind_line / lines_reused, the per-buffer mutex, cbuf_destroy.
+  clause of the property / part of cbuf.h                          theorem
+  ---------------------------------------------------------------  ----------------------------------
+  bytes read = bytes written, in order, once; overflow discards
+    the oldest unread bytes and reports their number exactly;
+    no-drop shortens / refuses: every history over write /
+    write_from_fd / write_line / read / peek / drop / read_line /
+    peek_line / drop_line / flush / opt_set from cbuf_create is
+    accepted step by step by the FIFO spec, identical answers      history_refines_fifo
+  what that means on the spec: shape of every admissible answer,   spec_write_shape,
+    conservation, suffix, no-drop loses nothing                    spec_write_conservation,
+                                                                   spec_write_suffix, spec_nodrop_lossless
+  line reads: whole newline-terminated lines, all or nothing       spec_readLine_whole
+  counters agree with the contents (used, free, lines_used,        counters_agree, getters_agree
+    reused, lines_reused, is_empty, opt_get)
+  never more than max, size in [min,max], cbuf_is_valid in every   reachable_valid, size_bounds
+    reachable state
+  cbuf_create                                                      create_refines, create_none_iff,
+                                                                   create_refines_replay
+  FOR EVERY ADMISSIBLE GROWTH POLICY (all of the above and below   `(pol : Policy) [Admissible pol]`
+    take the policy as a parameter; default = the code's)          chunk_policy_admissible,
+    and for a different admissible policy at every step            pinned_policy_admissible,
+    (the model as the driver runs it, following the capacity       grow_before_you_lose,
+    the code under test reports)                                   history_refines_replay_fifo_any_policies,
+                                                                   pair_history_refines_fifo_any_policies,
+                                                                   inadmissible_choice_witness
+  replay / rewind / peek_to_fd / read_to_fd / replay_to_fd on a    history_refines_replay_fifo,
+    descriptor that takes only some bytes; replay_line /           spec_rewind_undoes_consume,
+    rewind_line (refinement steps of the replay FIFO)              spec_replay_suffix, spec_sink_prefix
+  what the line finder of the replay side returns starts at a      spec_findReplay_line_start,
+    line boundary; never more than is replayable; rewind_line is   spec_findReplay_bounded,
+    a rewind by the bytes found                                    spec_rewindLine_is_rewind
+  copy / move between two buffers                                  pair_history_refines_fifo
+  EVERY function declared in cbuf.h is covered by the model        header_covered, header_coverage_witness
+  per-buffer mutex: any concurrent history = the sequential        concurrent_history_linearizable
+    history of its calls in lock order (answers and final state),    (Cbuf/Lin.lean: exclusive,
+    which the FIFO spec accepts                                      settle_exec, calls_of_thread)
+  32-bit int arithmetic on indices does not overflow for           index_arithmetic_no_overflow,
+    max ≤ INT_MAX/2; sharpness; where the caller's length enters   length_arithmetic_no_overflow,
+                                                                   int_overflow_witnesses
+
+  NOT proved / not modelled:
+  * the locking discipline itself (every public function takes and releases the mutex exactly once,
+    never nested) is a property of the C text: the harness checks it on every call of every
+    generated history (`!LOCK` marker); the theorem starts from that discipline.  Lock ORDER of
+    cbuf_copy / cbuf_move (lowest address first, deadlock freedom) is not modelled.
+  * a closed form of the line finder of the replay side ("the k-th line start from the end"): the
+    specification is the list-level scan; proved of it: line-boundary property, bounds.
+  * `alloc - size` (size_meta) staying constant is true of `grow` by construction but not stated as
+    an invariant; the overflow theorem takes the bound on it as a hypothesis; the list of `int`
+    expressions is transcribed by hand from cbuf.c.
+  * cbuf_destroy has no model state (end of a history); realloc/malloc never fail in the model.
 -/
 import PdshVerif.Cbuf.PairRefine
 import PdshVerif.Cbuf.Lin
 import PdshVerif.Cbuf.Api
+import PdshVerif.Cbuf.ScanFacts
+import PdshVerif.Cbuf.IntBounds
 
 namespace PdshVerif.C13
 open PdshVerif.Cbuf
@@ -381,6 +421,68 @@ theorem spec_sink_prefix (want : List UInt8) (cap : Nat) :
       intro h; subst h; simp at h0
     · simp only [hc, if_false]
       exact ⟨(take_min_length want cap).symm, Or.inl trivial⟩
+
+/-! ### the line-level replay side -/
+
+/-- what `cbuf_find_replay_line` reports starts at a line boundary: it is preceded by a newline, or
+    it is the whole history and nothing was ever lost ("the first line written in does not need a
+    preceding newline") -/
+theorem spec_findReplay_line_start (hist : List UInt8) (wrapped : Bool) (chars lines : Int) :
+    let m := (Spec.findReplay hist wrapped chars lines).1
+    m > 0 → (m = hist.length ∧ wrapped = false) ∨ (m < hist.length ∧ hist[hist.length - 1 - m]? = some 10) :=
+  findReplay_line_start hist wrapped chars lines
+
+/-- it never reports more bytes than are replayable -/
+theorem spec_findReplay_bounded (hist : List UInt8) (wrapped : Bool) (chars lines : Int) :
+    (Spec.findReplay hist wrapped chars lines).1 ≤ hist.length :=
+  findReplay_le hist wrapped chars lines
+
+/-- `cbuf_rewind_line` is a `cbuf_rewind` by the bytes of the lines found, or nothing -/
+theorem spec_rewindLine_is_rewind (r : Spec.RFifo) (len lines : Int) (h : 0 ≤ len) (hl : -1 ≤ lines) :
+    let n := (Spec.rewindLine r len lines).1
+    (n > 0 → (Spec.rewindLine r len lines).2 = (Spec.rewind r n).2) ∧
+    (¬ n > 0 → (Spec.rewindLine r len lines).2 = r) := by
+  have h1 : ¬ (len < 0 ∨ lines < -1) := by omega
+  unfold Spec.rewindLine
+  simp only [h1, if_false]
+  by_cases h0 : lines = 0
+  · simp [h0]
+  · simp only [h0, if_false]
+    by_cases hn : (Spec.findReplay r.hist r.wrapped len lines).1 > 0
+    · have hn' : ((Spec.findReplay r.hist r.wrapped len lines).1 : Int) > 0 := by omega
+      simp [hn, hn']
+    · have hn' : ¬ ((Spec.findReplay r.hist r.wrapped len lines).1 : Int) > 0 := by omega
+      simp [hn, hn']
+
+/-- non-vacuity: two lines are consumed, the newest one is replayed and rewound -/
+example :
+    (do let c ← create 8 8 1
+        acceptSR (absR c) (traceMR c [.base (.write [97, 10, 98, 99, 10]), .base (.read 5), .replayLine 9 1,
+          .rewindLine 9 1, .base (.readLine 9 1)])).isSome = true := by decide
+
+/-! ### 32-bit `int` arithmetic -/
+
+/-- in a valid state whose maximum size is at most INT_MAX/2 no expression over indices, counts
+    and sizes overflows a C `int`; a step of a copy loop never exceeds size + 1 whatever the
+    requested length is (so `i_in + len` is never formed) -/
+theorem index_arithmetic_no_overflow {c : Cbuf} (hi : Inv c) (hmax : c.maxsize ≤ INT_MAX / 2)
+    (hmeta : c.alloc - c.size ≤ 1 + 2 * 8) :
+    (∀ e ∈ indexExprs c, e.2 ≤ INT_MAX) ∧
+    (∀ i nleft m, i ≤ c.size → chunkStep c i nleft m ≤ c.size + 1 ∧ chunkStep c i nleft m ≤ INT_MAX) :=
+  ⟨index_exprs_safe hi hmax hmeta, fun i nleft m h => chunk_step_safe hi hmax i nleft m h⟩
+
+/-- the caller's length enters only `cb->alloc + n` (cbuf_grow) and `used + n`: the bound it needs -/
+theorem length_arithmetic_no_overflow {c : Cbuf} (hi : Inv c) (hmeta : c.alloc - c.size ≤ 1 + 2 * 8) (len : Nat)
+    (hlen : len + c.maxsize + (1 + 2 * 8) + Gen.CBUF_CHUNK ≤ INT_MAX) :
+    ∀ e ∈ lenExprs c len, e.2 ≤ INT_MAX :=
+  len_exprs_safe hi hmeta len hlen
+
+/-- both bounds are sharp: size = INT_MAX/2 + 1 overflows `i + size`; a WRAP_MANY write of INT_MAX
+    bytes into a buffer holding one byte overflows `used + n` -/
+theorem int_overflow_witnesses :
+    (let size := INT_MAX / 2 + 1; size + size > INT_MAX ∧ (size - 1) + (size - 1) ≤ INT_MAX) ∧
+    (1 : Nat) + INT_MAX > INT_MAX :=
+  ⟨index_overflow_witness, len_overflow_witness⟩
 
 /-- non-vacuity of the extended theorems: replay after a read, rewind, a short descriptor write,
     then copy and move between two buffers -/
